@@ -178,17 +178,17 @@ def search : Family := { name := "search", gen := searchGen, eval := searchEval,
 
 /-- the stand-in detector of the executable model: finds the planted token wherever it occurs, nothing else
 (the Go handler checks this hypothesis against the real `ScanString` on every cell text of the case) -/
-def tokDetector (tok : Bytes) : Detector :=
-  { keywords := [tok.take 4], fromData := fun s => some (if occursIn tok s then [{ detector := s2b "tok", raw := tok }] else []) }
+def tokDetector (tok : Bytes) (ctx : Nat := 0) : Detector :=
+  { keywords := [tok.take 4], fromData := fun s => some (if occursIn tok s then [{ detector := s2b "tok", raw := tok.drop ctx }] else []) }
 
 /-- coordinates in the order reported, every coordinate once -/
 def showCoords (fs : List (Bytes × Bytes × Nat × Bytes)) : String :=
   let strs := fs.map fun (db, t, r, c) => s!"{hexOf db}/{hexOf t}/{r}/{hexOf c}"
   joinWith ";" strs.eraseDups
 
-def modelSecret (tok : Bytes) (d : Dump) : String :=
-  showCoords ((Model.Secrets.scanDumpResult [tokDetector tok] Model.SearchShow.showScalar d).filterMap fun f =>
-    if f.raw == tok then some (f.db, f.table, f.row, f.col) else none)
+def modelSecret (tok : Bytes) (d : Dump) (ctx : Nat := 0) : String :=
+  showCoords ((Model.Secrets.scanDumpResult [tokDetector tok ctx] Model.SearchShow.showScalar d).filterMap fun f =>
+    if f.raw == tok.drop ctx then some (f.db, f.table, f.row, f.col) else none)
 
 /-- spec: exactly the cells whose text contains the token (every planted cell text is ≥ 8 bytes long), in
 (database, table, row, column) order -/
@@ -203,6 +203,10 @@ def secretEval (args : List String) : String :=
   | [tok, dump] =>
     match (SearchParse.parseVal dump).bind SearchParse.toDump with
     | some d => modelSecret (unhex tok) d
+    | none => "bad-args"
+  | [tok, dump, ctx] =>
+    match (SearchParse.parseVal dump).bind SearchParse.toDump with
+    | some d => modelSecret (unhex tok) d ctx.toNat!
     | none => "bad-args"
   | _ => "bad-args"
 
@@ -238,12 +242,12 @@ def cellsOf (d : Dump) : List (Nat × Nat × Nat × Bytes) :=
     t.rows.zipIdx.flatMap fun ((r : Row), ri) => r.map fun kv => (di, ti, ri, kv.1)
 
 def secretGen (seed idx size : Nat) : Case :=
-  let kinds := Gen.Search.tokenKinds
+  let kinds := Gen.Search.allTokenKinds
   let kind := kinds.getD (idx % kinds.length) "stripe"
   let how := (idx / kinds.length) % 5
   let depth := (idx / (kinds.length * 5)) % 5
-  let (tok, d, nplant) := (do
-      let tok ← Gen.Search.genToken kind
+  let (tok, ctx, d, nplant) := (do
+      let (tok, ctx) ← Gen.Search.genTokenCtx kind
       let d0 ← Gen.Search.genDump size
       -- make sure there is at least one table with a row to plant into
       let d0 : Dump := if hasRow d0 then d0 else d0 ++ [fallbackDb]
@@ -251,9 +255,9 @@ def secretGen (seed idx size : Nat) : Case :=
       let np ← Gen.oneOf [1, 1, 1, 2, 3]
       let chosen := (← Gen.shuffle cells).take np
       let d := plantAll tok how depth chosen d0
-      return (tok, d, chosen.length)).run' (Prng.ofSeed seed idx)
+      return (tok, ctx, d, chosen.length)).run' (Prng.ofSeed seed idx)
   { tags := [s!"kind={kind}", s!"place={how}", s!"depth={depth}", s!"planted={nplant}", "nt"],
-    model := modelSecret tok d, spec := specSecret tok d, args := [hexOf tok, (SearchParse.ofDump d).canon] }
+    model := modelSecret tok d ctx, spec := specSecret tok d, args := [hexOf tok, (SearchParse.ofDump d).canon, toString ctx] }
 
 def secretscan : Family := { name := "secretscan", gen := secretGen, eval := secretEval, fixed := 150 }
 
